@@ -184,7 +184,7 @@ P = {
          "over VTA) and must be nil or of a type implementing ucfg.Error; raw Err* variables, errors.New/fmt.Errorf, library and callback errors are "
          "violations unless wrapped by a raise* constructor (an Error extracted from user code by assertion or errors.As and returned unwrapped "
          "is one). Also: error literals carry a class variable and a reason that is non-nil on that path; "
-         "constructors get context and metadata of one object, the receiver of the failing conversion. Message text / completeness of the path rest "
+         "constructors get context and metadata of one object, the receiver of the failing conversion; where a function has the setting at fault in hand (castArr, reifyGetField) the source named is that setting's own, the enclosing configuration's only for a setting that is missing (R14g); the walkers of a path raise their errors at the node the walk has reached, never at the configuration it started from (R14h: the path named is the setting's full path). Message text / completeness of the path rest "
          "on C15 and are not decided.",
          TRUST + "Values of static type ucfg.Error are typed by the Go type system.",
          "§3 C14, appendix B E9"),
